@@ -60,6 +60,10 @@ class Field:
                 self.short, self.long = gshort, "brightness"
             elif naming == "short_custom_long_gen":
                 self.short, self.long = "z", glong
+            elif naming == "short_h_long_gen":
+                self.short, self.long = "h", glong
+            elif naming == "long_help":
+                self.long = "help"
 
     def attr(self):
         parts = []
@@ -80,6 +84,10 @@ class Field:
             parts += ["short", 'long = "brightness"']
         elif n == "short_custom_long_gen":
             parts += ["short = 'z'", "long"]
+        elif n == "short_h_long_gen":
+            parts += ["short = 'h'", "long"]
+        elif n == "long_help":
+            parts.append('long = "help"')
         t = TYPES[self.ty]
         if self.opt == "default_value":
             parts.append('default_value = "%s"' % t[2])
@@ -427,6 +435,14 @@ def build_set(which):
         Cmd("Help", doc=["Own help command"]),
         Cmd("Exit"),
     ], help_title="Nesting"))
+
+    # ---------------- options that use the names the help facility reserves (`-h`, `--help`): with the help
+    # feature off they are ordinary options; through FromRaw::parse they are ordinary options in every build
+    add(Enum("PH0", [
+        Cmd("Conn", [Field("host", "option", "&str", "required", naming="short_h_long_gen", doc="Host name")], name="conn"),
+        Cmd("Show", [Field("help", "flag", "bool", "required", naming="long_help"), Field("what", "positional", "&str", "option")], name="show"),
+        Cmd("Hx", [Field("hex", "flag", "bool", "required", naming="short"), Field("level", "option", "u8", "option", naming="short_h_long_gen")], name="hx"),
+    ]))
 
     # ---------------- doc-comment shapes
     if which != "c16":
